@@ -485,6 +485,15 @@ func (r *Report) finish(tier string, seed int, start time.Time, verifDir string,
 	}
 	discharged := verd[string(Holds)] + verd[string(Allowed)] + verd[string(Known)]
 	total := len(r.Obs) - verd[string(Info)]
+	// the explanation always ends with the complete inventory of rules that were evaluated
+	var ruleNames []string
+	for k := range perRule {
+		ruleNames = append(ruleNames, k)
+	}
+	sort.Strings(ruleNames)
+	if len(ruleNames) > 0 && !strings.Contains(r.Explanation, "Rules evaluated in this run:") {
+		r.Explanation += " Rules evaluated in this run: " + strings.Join(ruleNames, ", ") + "."
+	}
 	cov := map[string]interface{}{
 		"explanation":         r.Explanation,
 		"not_covered":         r.NotCovered,
